@@ -648,6 +648,70 @@ def fold_by_next_loop(an, name):
                 % (want.split("::")[-1], self_ok, not lp.breaks, once, args_ok, not others, init_ok, ret_ok))
 
 
+def fold_by_cursor_loop(an, it, name):
+    """fold / rfold written as a loop over the iterator's own cursors with its primitive inlined:
+        while self.index < self.index_back { self.index_back -= 1; let v = read(slot index_back); acc = f(acc, v) }      (rfold)
+        while self.index < self.index_back { let v = read(slot index); self.index += 1; acc = f(acc, v) }                (fold)
+    One cycle; per iteration exactly one cursor store (the step of next_back / next), exactly one raw read - of the slot that step gives up,
+    made before f runs - exactly one call f(acc, that value) whose result becomes the accumulator; the loop is left only when the claimed
+    range is empty, and the accumulator is what is returned. By induction the calls are f(.., a[back-1]), f(.., a[back-2]), .. (resp. ascending
+    from index): the sequence of next_back() / next() values."""
+    from ..absint import State
+    N, S = NS(an)
+    lo, hi = it.entry(an, True)
+    base = ("local", 1)
+    cyc = {bb for bb in an.edges if not an.blocks[bb]["cleanup"] and any(an.reaches(s_, bb) for s_ in an.edges.get(bb, []) if not an.blocks[s_]["cleanup"])}
+    if not cyc:
+        return False, "no loop"
+    fcs = [c for c in an.calls if c.fn == "core::ops::FnMut::call_mut" and c.bb in cyc]
+    rds = [c for c in an.calls if c.fn in ("core::ptr::read", "core::ptr::read_unaligned") and c.bb in cyc]
+    sts = [s_ for s_ in stores_to(an, it, base) if s_["site"][0] in cyc]
+    outside = [s_ for s_ in stores_to(an, it, base) if s_["site"][0] not in cyc]
+    if len(fcs) != 1 or len(rds) != 1 or len(sts) != 1 or outside:
+        return False, "cursor loop: expected one f call, one raw read and one cursor store per iteration (and none outside): %d / %d / %d / %d" % (len(fcs), len(rds), len(sts), len(outside))
+    fc, rd, st = fcs[0], rds[0], sts[0]
+    # a simple cycle: every block of the loop has exactly one successor inside it (one path per iteration)
+    simple = all(len([s_ for s_ in an.edges.get(bb, []) if s_ in cyc]) == 1 for bb in cyc)
+    fld = it.i1 if name == "rfold" else it.i0
+    cur = None
+    for at_ in st["val"][1].atoms() if st["val"][0] == "I" else ():
+        if isinstance(at_, tuple) and at_[0] == "phi" and at_[2] == (base, (fld,)):
+            cur = at_
+    if cur is None or st["cell"][1] != (fld,):
+        return False, "cursor loop: the store in the loop is not a step of `%s`" % ("index_back" if name == "rfold" else "index")
+    P = Poly.atom(cur)
+    step_ok = st["val"][1] == (P - Poly.const(1) if name == "rfold" else P + Poly.const(1))
+    slot = (P - Poly.const(1)) if name == "rfold" else P
+    p_ = rd.args[0]
+    pf = an.poly_facts(fc.facts)
+    slot_ok = p_[0] == "P" and p_[1] == ("field", base, (it.ia,)) and prove(("==", p_[2] - slot * S), pf)
+    # the other cursor is the entry value throughout; the loop runs only while the claimed range is not empty
+    other = an.read_cell(State(fc.mem, fc.facts), base, ((it.i0 if name == "rfold" else it.i1),), {"k": "prim", "n": "usize"})
+    other_ok = other[0] == "I" and other[1] == (lo if name == "rfold" else hi)
+    guard = prove((">=", (P - lo - Poly.const(1)) if name == "rfold" else (hi - P - Poly.const(1))), pf)
+    # exclusion before the call: at f the cursor already has its new value
+    now = an.read_cell(State(fc.mem, fc.facts), base, (fld,), {"k": "prim", "n": "usize"})
+    excl = now[0] == "I" and now == st["val"] and an.reaches(rd.bb, fc.bb)
+    # accumulator threading
+    args_ok = init_ok = ret_ok = False
+    accs = [s_ for s_ in an.assigns if s_["val"] == fc.ret and s_["cell"][0][0] == "local" and s_["site"][0] in cyc]
+    dest = (("local", fc.term["dest"]["l"]), ()) if not fc.term["dest"]["p"] else None
+    for cell in {s_["cell"] for s_ in accs} | ({dest} if dest else set()):
+        a_head = fc.args[1][2][0] if fc.args[1][0] == "A" and len(fc.args[1][2]) == 2 else None
+        if a_head is not None and isinstance(a_head, tuple) and a_head[:2] == ("V", "phi") and a_head[2][2] == cell and fc.args[1] == ("A", "tuple", (a_head, rd.ret)):
+            args_ok = True
+            init_ok = any(s_["cell"] == cell and s_["val"] == ("V", "arg", 2) and s_["site"][0] not in cyc for s_ in an.assigns)
+            ret_ok = bool(an.returns) and all(r["val"] == a_head for r in an.returns)
+    # left only when nothing is claimed any more
+    empty = bool(an.returns) and all(prove(("==", (P - lo) if name == "rfold" else (hi - P)), an.poly_facts(r["facts"])) for r in an.returns)
+    others = [c.fn for c in an.calls if c.bb in cyc and c not in (fc, rd) and not is_panic(c) and not an.is_pure(c) and not getattr(c, "no_effects", False)]
+    ok = bool(simple and step_ok and slot_ok and other_ok and guard and excl and args_ok and init_ok and ret_ok and empty and not others)
+    return ok, ("%s as a loop over the iterator's own cursors (its %s inlined): one path per iteration: %s; the step moves the cursor by one: %s; the slot read is the one that step gives up: %s, "
+                "read before f and already excluded when f runs: %s; runs only while the range is not empty: %s/%s; f(acc, value) once, its result the new accumulator, init first, the accumulator returned: %s/%s/%s; "
+                "left only with nothing claimed: %s; no other effectful call in the loop: %s" % (
+                    name, "next_back" if name == "rfold" else "next", simple, step_ok, slot_ok, excl, guard, other_ok, args_ok, init_ok, ret_ok, empty, not others))
+
+
 def is_panic(c):
     from ..rules import is_panic_plumbing
     return is_panic_plumbing(c)
@@ -709,6 +773,10 @@ def check_folds(ctx, cfg, it, name):
             name, d.fn.split("::")[-1], "next" if name == "fold" else "next_back", init_ok, argok, ret_ok)
     elif not drv:
         ok, det = fold_by_next_loop(an, name)
+        if not ok:
+            ok2, det2 = fold_by_cursor_loop(an, it, name)
+            if ok2 or det2 != "no loop":
+                ok, det = ok2, det2
     elif ok:
         d = drv[0]
         itv = d.args[0]
